@@ -50,7 +50,14 @@ def c18_case(draw):
              "ctx": c["ctx"], "data": M.NODATA}
         if not M.run(c)["ok"]:
             c = {"nodes": [{"p": "FloatValueDataSource", "params": {"value": 2.0}}, {"p": "FloatSquareOperation"}], "ctx": {}, "data": M.NODATA}
-    return {"case": c, "way": way, "traced": draw(st.booleans())}
+    fails = False
+    if way != "launch" and draw(st.sampled_from([False, True, False])):
+        # "all generated pipelines" includes those that fail at run time: every run raises (a fresh exception object each time)
+        m = M.run(c)
+        if m["ok"] and M.kind_of(m["data"]) == "Float":
+            c = {"nodes": c["nodes"] + [{"p": "FloatDivideOperation", "params": {"divisor": 0.0}}, {"p": "FloatSquareOperation"}], "ctx": c["ctx"], "data": c["data"]}
+            fails = not M.run(c)["ok"]
+    return {"case": c, "way": way, "traced": draw(st.booleans()), "fails": fails}
 
 
 def sample() -> Dict[str, Any]:
@@ -89,7 +96,13 @@ def run_way(spec: Dict[str, Any], points: List[int], workroot: str) -> Dict[str,
                     pipe.trace = JsonlTraceDriver(trace_path, detail="hash")
                     if os.path.exists(trace_path) and i % 50 == 0:
                         os.remove(trace_path)
-                pipe.process(Payload(observe.build_data(case["data"]), copy.deepcopy(case["ctx"])))
+                try:
+                    pipe.process(Payload(observe.build_data(case["data"]), copy.deepcopy(case["ctx"])))
+                    if spec.get("fails"):
+                        return {"skip": "expected to fail, succeeded"}
+                except Exception:  # noqa: BLE001
+                    if not spec.get("fails"):
+                        raise
                 if i in points:
                     samples[i] = sample()
                     if i in points[-2:]:
@@ -133,7 +146,13 @@ def run_way(spec: Dict[str, Any], points: List[int], workroot: str) -> Dict[str,
             try:
                 for i in range(last + 1):
                     fut = master.enqueue(copy.deepcopy(cfg), data=observe.build_data(case["data"]), context=ContextType(copy.deepcopy(case["ctx"])), return_future=True)
-                    fut.result(timeout=60)
+                    try:
+                        fut.result(timeout=60)
+                        if spec.get("fails"):
+                            return {"skip": "expected to fail, succeeded"}
+                    except Exception:  # noqa: BLE001
+                        if not spec.get("fails"):
+                            raise
                     del fut
                     if i in points:
                         samples[i] = sample()
@@ -152,7 +171,7 @@ def run_way(spec: Dict[str, Any], points: List[int], workroot: str) -> Dict[str,
 def check_case(spec: Dict[str, Any], col: Collector, workroot: str = ".", quick: bool = True) -> None:
     way = spec["way"]
     points = [10, 30, 60, 90] if (way == "queue" and quick) else [50, 150, 300, 450]
-    rep = {"case": spec["case"], "way": way, "traced": spec.get("traced", False)}
+    rep = {"case": spec["case"], "way": way, "traced": spec.get("traced", False), "fails": spec.get("fails", False)}
     r = run_way(spec, points, workroot)
     if "skip" in r:
         col.exclude(1, "way_not_applicable")
@@ -161,13 +180,15 @@ def check_case(spec: Dict[str, Any], col: Collector, workroot: str = ".", quick:
     if len(s) != 4:
         col.add("samples_missing", {"way": way}, rep, sorted(s), points)
         return
-    labs = ["way:" + way, "nodes:%d" % len(spec["case"]["nodes"]), "traced" if spec.get("traced") else "untraced"]
+    labs = ["way:" + way, "nodes:%d" % len(spec["case"]["nodes"]), "traced" if spec.get("traced") else "untraced", "every_run_fails" if spec.get("fails") else "every_run_succeeds"]
     for n in spec["case"]["nodes"]:
         d = M.describe(n)
         labs.append("kind:" + d["kind"] + (":" + d["sub"] if d.get("sub") else ""))
     col.count(rep, sorted(set(labs)), len(spec["case"]["nodes"]) >= 2)
     a, b, mid, c = (s[p] for p in points)
     feats = {"way": way}
+    if spec.get("fails"):
+        feats["runs_fail"] = True
     if not (a["registry"] == b["registry"] == mid["registry"] == c["registry"]):
         growing = sorted(k for k in c["buckets"] if c["buckets"].get(k, 0) > a["buckets"].get(k, 0))
         col.add("component_registry_grows_with_runs", dict(feats, buckets=growing[:4]), rep,
